@@ -209,7 +209,7 @@ func init() {
 			prefixFilter(c.rule("R36", ruleR36), "R36", "EXTREME: B-tree descents — the iterator's and the helpers it calls — hop through the first / last child of the node they are on (each node has its own number of children)", 3, "R36:hop:"))
 	}}
 	properties["C09"] = propDef{run: func(c *Ctx) *PropertyRun {
-		return pr("other", "Decided in full as a who-may-call / pairing property: (R15a) the order list is mutated only by Append under 'key not in table', Remove(IndexOf(key)) under 'key in table' together with delete(table,key), and Clear together with clearing the table — so an existing key is never moved and a re-inserted key goes last; (R15b) table and list change on exactly the same paths; (R15c) every enumerator (Keys, Values, iterator, Each…, String, ToJSON) walks the list and never ranges over the Go map; (R15w) the two fields are assigned only in constructors/Clear; of the order list itself (a doubly linked list): (R33) its index walks keep pointer and counter in step and land on the requested index from either end, (R25) next/prev are stored in pairs. Not decided: the rest of doublylinkedlist.Append/Remove/IndexOf (C03's remainder). Inherited (substrate): the doubly linked list that keeps the order — next/prev pairing, index walks, size counter, index guards."+notBehaviour,
+		return pr("other", "Decided in full as a who-may-call / pairing property: (R15a) the order list is mutated only by Append under 'key not in table', Remove(IndexOf(key)) under 'key in table' together with delete(table,key), and Clear together with clearing the table — so an existing key is never moved and a re-inserted key goes last; (R15b) table and list change on exactly the same paths; (R15c) every enumerator (Keys, Values, iterator, Each…, String, ToJSON) walks the list and never ranges over the Go map; (R15w) the two fields are assigned only in constructors/Clear; of the order list itself (a doubly linked list): (R33) its index walks keep pointer and counter in step and land on the requested index from either end, (R25) next/prev are stored in pairs. (R9b) ToJSON of both containers writes its members from the order list — the Go map is never handed to the encoder (encoding/json sorts map keys). Not decided: the rest of doublylinkedlist.Append/Remove/IndexOf (C03's remainder). Inherited (substrate): the doubly linked list that keeps the order — next/prev pairing, index walks, size counter, index guards."+notBehaviour,
 			withSubstrates(c, []*RuleResult{
 				c.rule("R15", ruleR15),
 				prefixFilter(c.rule("R33", ruleR33), "R33", "WALK: the order list's index walks (Remove(IndexOf(key)) unlinks the element at that index)", 3, "R33:lists/doublylinkedlist"),
@@ -217,6 +217,7 @@ func init() {
 				filter(c.rule("R1", ruleR1), "R1", "PURE: the enumerating operations of the linked hash containers (Keys, Values, Each, iterators, …) write nothing — what they report is the order list as the mutators left it, not a copy of their own", 20, func(o Obligation) bool {
 					return strings.HasPrefix(o.Key, "R1:maps/linkedhashmap.(*Map).") || strings.HasPrefix(o.Key, "R1:sets/linkedhashset.(*Set).")
 				}),
+				prefixFilter(c.rule("R9", ruleR9), "R9", "ENUMERATION BY ToJSON: the JSON form of the linked hash containers is written from the order list (iterator / Values()), never by handing the Go map to the encoder, which sorts keys", 2, "R9b:maps/linkedhashmap", "R9b:sets/linkedhashset"),
 			}, "dll")...)
 	}}
 	properties["C10"] = propDef{run: func(c *Ctx) *PropertyRun {
